@@ -335,7 +335,8 @@ type Run struct {
 	StartedAt int64
 	HookLog   []HookCall
 	StoreDir  string
-	Crash     *CrashHook // non-nil when the run uses a storage hook
+	Crash     *CrashHook // non-nil when the run uses a storage hook (the current broker's)
+	Crash0    *CrashHook // the first life's storage hook wrapper
 	Restarts  []int      // steps at which the broker was restarted
 	extra     []mqtt.Hook
 	// crash bookkeeping (see CrashHook)
@@ -434,7 +435,16 @@ func NewRun(c *Case, extraHooks ...mqtt.Hook) *Run {
 		r.StoreDir = dir
 	}
 	r.B = r.newBroker(c.Cfg.CrashAfter)
+	r.Crash0 = r.Crash
 	return r
+}
+
+// Crash0State is the state of the first life's storage wrapper: writes forwarded, crashed?, the event that was cut.
+func (r *Run) Crash0State() (int, bool, string) {
+	if r.Crash0 == nil {
+		return 0, false, ""
+	}
+	return r.Crash0.State()
 }
 
 func newStoreDir() (string, error) {
